@@ -143,9 +143,9 @@ End MovedSkel.
 
 Lemma emit_moved_skel fn rtl R w ot p dst w' :
   (forall t pos ser label act, ot = Some t -> slot_at w t pos ser (SObs label act) -> act = None) ->
-  emit fn rtl R w ot p KMoved [Z.of_nat dst] = (w', None) -> SKB w w' /\ w_props w' = w_props w.
+  emit fn rtl R w ot p KMoved [Z.of_nat dst] = (w', None) -> SKB w w' /\ w_props w' = w_props w /\ forall t, tview w' t = tview w t.
 Proof.
-  intros Hna H. destruct ot as [t|]; [|inversion H; subst; split; [apply SKB_refl|reflexivity]].
+  intros Hna H. destruct ot as [t|]; [|inversion H; subst; split; [apply SKB_refl|split; reflexivity]].
   unfold emit in H. destruct (get_table w t) as [tb|] eqn:Ht; [|discriminate H]. destruct (t_emitting tb); [discriminate H|].
   set (tb1 := {| t_slots := t_slots tb; t_free := t_free tb; t_emitting := true; t_alive := t_alive tb |}) in *.
   set (w1 := put_table w t tb1) in *.
@@ -156,9 +156,13 @@ Proof.
   destruct (walk_moved_skel fn rtl R p dst t tb1) with (idxs := seq 0 (length (t_slots tb))) (w := w1) (w' := w2) as (A1 & A2 & A3); [|exact Ht1|exact Hw|].
   { intros x ser label act Hn. apply (Hna t x ser label act eq_refl). exists (t_slots tb), (t_free tb), (t_alive tb). split; [unfold tview; rewrite Ht; reflexivity|exact Hn]. }
   assert (S1 : SKB w w1) by (apply SKB_binds; reflexivity).
-  destruct (get_table w2 t) as [tb2|]; inversion H; subst w'.
-  - split; [|exact A3]. eapply SKB_trans; [exact S1|]. eapply SKB_trans; [exact A1|]. apply SKB_binds. reflexivity.
-  - split; [|exact A3]. eapply SKB_trans; [exact S1|exact A1].
+  assert (Ht2 : get_table w2 t = Some tb1) by (unfold get_table; rewrite A2; exact Ht1).
+  rewrite Ht2 in H. inversion H; subst w'. split; [|split; [exact A3|]].
+  - eapply SKB_trans; [exact S1|]. eapply SKB_trans; [exact A1|]. apply SKB_binds. reflexivity.
+  - intros t'. rewrite tview_put_table. assert (Hl2 : length (w_tables w2) = length (w_tables w)) by (rewrite A2; unfold w1, put_table; cbn [set_tables w_tables]; apply upd_length).
+    rewrite Hl2. apply Nat.ltb_lt in Hlt. rewrite Hlt. cbn [tb1 t_slots t_free t_alive]. destruct (Nat.eqb_spec t t') as [<-|Hne].
+    + unfold tview. rewrite Ht. reflexivity.
+    + unfold tview, get_table. rewrite A2. unfold w1, put_table; cbn [set_tables w_tables]. rewrite nth_upd_other by exact Hne. reflexivity.
 Qed.
 
 (* ---- the abstract invariant under renaming ---- *)
@@ -272,7 +276,7 @@ Section MoveCtor.
     assert (Ewb : wb = wa) by (cbn [emit] in E1; inversion E1; reflexivity). subst wb.
     assert (Tw : forall t, tview wc t = tview w t) by (intros t; rewrite T; unfold wa, fixtarget; destruct (pr_updater d) as [bu|]; [destruct (get_bind w1 bu)|]; reflexivity).
     assert (SKc : SKB wa wc).
-    { apply (emit_moved_skel fn rtl (set_helper fn rtl fuel) wa (pr_moved s0) dst dst wc); [|exact E2].
+    { refine (proj1 (emit_moved_skel fn rtl (set_helper fn rtl fuel) wa (pr_moved s0) dst dst wc _ E2)).
       intros t pos ser label act _ Hsl. apply (Hna t pos ser label act). destruct Hsl as (sl & fr & al & Et & En). exists sl, fr, al. split; [|exact En].
       rewrite <- Et. unfold wa, fixtarget. destruct (pr_updater d) as [bu|]; [destruct (get_bind w1 bu)|]; reflexivity. }
     (* every binding: alive as before, same evaluator, and its tree abstracts to the old abstraction with src renamed to dst *)
@@ -302,24 +306,46 @@ Section MoveCtor.
     split; [exact PW|]. split; [exact Sw|exact HB].
   Qed.
 
-  Lemma grow_movector fuel w src dst w' :
-    SC w -> COH w -> NOEMIT w -> step1 fn rtl fuel w (PMoveCtor src dst) = (w', None) -> SC w' /\ COH w'.
+  (* the abstract half, for any operation that leaves the world in this shape: dst now has the value and updater src had, src is
+     plain, nobody read dst, every binding that updates a property other than the old dst is as before up to the renaming *)
+  Lemma coh_renamed w w' s src dst s0 dn sn :
+    pinv w -> NOACT w -> SIMPLE w -> Rel w s -> AP.Inv F1 F2 F3 (ORD w) s [] -> pinv w' ->
+    src <> dst -> lookup (w_props w) src = Some s0 ->
+    (forall b lf, has_leaf w b lf -> lf_tg lf <> Some dst) ->
+    pr_value dn = pr_value s0 -> pr_updater dn = pr_updater s0 -> pr_value sn = pr_value s0 -> pr_updater sn = None ->
+    (forall q, lookup (w_props w') q = if Nat.eqb q dst then Some dn else if Nat.eqb q src then Some sn else lookup (w_props w) q) ->
+    (forall t pos ser s1, slot_at w' t pos ser s1 -> slot_at w t pos ser s1) ->
+    (forall b, (forall d0, lookup (w_props w) dst = Some d0 -> pr_updater d0 <> Some b) ->
+               match get_bind w b, get_bind w' b with
+               | Some x, Some x' => b_evp x' = b_evp x /\ abs_tree (b_root x') = option_map (aren (rn src dst)) (abs_tree (b_root x))
+               | None, None => True
+               | _, _ => False end) ->
+    SC w' /\ COH w'.
   Proof.
-    intros (Hinv & Hna & Hsi) (s & (R1 & R2 & R3) & HInv) HNE H.
-    pose proof (movector_pinv fn rtl fuel w src dst w' None Hinv HNE H I) as Hinv'.
-    destruct (movector_shape fuel w src dst w' Hinv Hna HNE H) as (s0 & dn & sn & Hs & Hd & Hne & Vd & Ud & Vs & Us & PW & Sw & HB).
+    intros Hinv Hna Hsi (R1 & R2 & R3) HInv Hinv' Hne Hs Hnr Vd Ud Vs Us PW Sw HB0.
+    (* a binding that updates a property other than dst is not the old updater of dst *)
+    assert (HB : forall q pr b, q <> dst -> lookup (w_props w) q = Some pr -> pr_updater pr = Some b ->
+                 match get_bind w b, get_bind w' b with
+                 | Some x, Some x' => b_evp x' = b_evp x /\ abs_tree (b_root x') = option_map (aren (rn src dst)) (abs_tree (b_root x))
+                 | None, None => True
+                 | _, _ => False end).
+    { intros q pr b Hq Hp Hu. apply HB0. intros d0 Hd0 Hud.
+      assert (Pq : pview w q = Some (psigs_of pr)) by (unfold pview; rewrite Hp; reflexivity).
+      assert (Pd : pview w dst = Some (psigs_of d0)) by (unfold pview; rewrite Hd0; reflexivity).
+      destruct (pi_upd _ _ _ _ _ _ _ Hinv _ _ _ Pq Hu (fun z => z)) as (ls & Eb).
+      destruct (pi_upd _ _ _ _ _ _ _ Hinv _ _ _ Pd Hud (fun z => z)) as (ls' & Eb'). rewrite Eb in Eb'. inversion Eb'. contradiction. }
     (* the immediate binding of q in the new world is the one of (q with dst renamed back to src) in the old world *)
     assert (IMM : forall q, match imm_of w' q with
                             | Some x' => q <> src /\ exists x, imm_of w (if Nat.eqb q dst then src else q) = Some x /\
                                            abs_tree (b_root x') = option_map (aren (rn src dst)) (abs_tree (b_root x))
                             | None => q = src \/ imm_of w (if Nat.eqb q dst then src else q) = None end).
     { intros q. unfold imm_of. rewrite PW. destruct (Nat.eqb_spec q dst) as [->|Hqd].
-      - rewrite Hs, Ud. destruct (pr_updater s0) as [b|]; [|right; reflexivity].
-        pose proof (HB b) as Hb. destruct (get_bind w b) as [x|], (get_bind w' b) as [x'|]; try (exfalso; exact Hb); [|right; reflexivity].
+      - rewrite Hs, Ud. destruct (pr_updater s0) as [b|] eqn:Hub; [|right; reflexivity].
+        pose proof (HB src s0 b Hne Hs Hub) as Hb. destruct (get_bind w b) as [x|], (get_bind w' b) as [x'|]; try (exfalso; exact Hb); [|right; reflexivity].
         cbv beta iota in Hb. destruct Hb as [Hev Hab]. rewrite Hev. destruct (Nat.eqb (b_evp x) 0); [|right; reflexivity]. split; [intros E; apply Hne; symmetry; exact E|]. exists x. auto.
       - destruct (Nat.eqb_spec q src) as [Eq|Hqs]; [rewrite Us; left; exact Eq|].
-        destruct (lookup (w_props w) q) as [pr|]; [|right; reflexivity]. destruct (pr_updater pr) as [b|]; [|right; reflexivity].
-        pose proof (HB b) as Hb. destruct (get_bind w b) as [x|], (get_bind w' b) as [x'|]; try (exfalso; exact Hb); [|right; reflexivity].
+        destruct (lookup (w_props w) q) as [pr|] eqn:Hp; [|right; reflexivity]. destruct (pr_updater pr) as [b|] eqn:Hub; [|right; reflexivity].
+        pose proof (HB q pr b Hqd Hp Hub) as Hb. destruct (get_bind w b) as [x|], (get_bind w' b) as [x'|]; try (exfalso; exact Hb); [|right; reflexivity].
         cbv beta iota in Hb. destruct Hb as [Hev Hab]. rewrite Hev. destruct (Nat.eqb (b_evp x) 0); [|right; reflexivity]. split; [exact Hqs|]. exists x. auto. }
     (* the renamed abstract state *)
     set (s' := {| A.env := fun x => if Nat.eqb x dst then A.env s src else A.env s x;
@@ -343,7 +369,7 @@ Section MoveCtor.
       set (q0 := if Nat.eqb q dst then src else q) in *.
       destruct (A.tr s q0) as [t|] eqn:Ht; [|discriminate Ht']. inversion Ht'; subst t'; clear Ht'.
       destruct (HInv q0 t Ht) as (A1 & A2 & A3 & _).
-      (* the properties a tree reads exist, so none of them is dst *)
+      (* nothing a tree reads is dst *)
       assert (Hlv : forall p lid, In (p, lid) (A.leaves t) ->
                 (if Nat.eqb (rn src dst p) dst then A.env s src else A.env s (rn src dst p)) = A.env s p).
       { intros p lid Hi. rewrite R2 in Ht. destruct (imm_of w q0) as [x|] eqn:Hx; [|discriminate Ht].
@@ -352,17 +378,162 @@ Section MoveCtor.
         { unfold imm_of in Hx. destruct (lookup (w_props w) q0) as [pr|]; [|discriminate Hx]. destruct (pr_updater pr) as [b|]; [|discriminate Hx].
           destruct (get_bind w b) as [x0|] eqn:Hb0; [|discriminate Hx]. destruct (Nat.eqb (b_evp x0) 0); [|discriminate Hx]. inversion Hx; subst x0.
           exists b, (leaves (b_root x)), (b_target x). split; [unfold bview; rewrite Hb0; reflexivity|exact Hlf]. }
-        destruct Hb as (b & Hl). pose proof (pi_leafx _ _ _ _ _ _ _ Hinv _ _ _ Hl Htg) as Hex.
+        destruct Hb as (b & Hl). pose proof (Hnr _ _ Hl) as Hnd. rewrite Htg in Hnd.
         unfold rn. destruct (Nat.eqb_spec p src) as [->|Hps]; [rewrite Nat.eqb_refl; reflexivity|].
-        destruct (Nat.eqb_spec p dst) as [->|]; [exfalso; apply Hex; unfold pview; rewrite Hd; reflexivity|reflexivity]. }
+        destruct (Nat.eqb_spec p dst) as [->|]; [exfalso; apply Hnd; reflexivity|reflexivity]. }
       split; [apply aren_clean; exact A1|]. split; [apply (aren_consis fn (rn src dst) (A.env s) _ q0 q t Hlv A2)|].
       intros _. rewrite (aren_den fn (rn src dst) (A.env s) _ t Hlv). rewrite <- A3 by (intros p lid _ []).
       unfold q0. destruct (Nat.eqb_spec q dst); reflexivity.
   Qed.
 
-  (* ---- histories: the operations of PropGrowMore.grow_op2 and move construction of any property ---- *)
+  Lemma grow_movector fuel w src dst w' :
+    SC w -> COH w -> NOEMIT w -> step1 fn rtl fuel w (PMoveCtor src dst) = (w', None) -> SC w' /\ COH w'.
+  Proof.
+    intros (Hinv & Hna & Hsi) (s & HRel & HInv) HNE H.
+    pose proof (movector_pinv fn rtl fuel w src dst w' None Hinv HNE H I) as Hinv'.
+    destruct (movector_shape fuel w src dst w' Hinv Hna HNE H) as (s0 & dn & sn & Hs & Hd & Hne & Vd & Ud & Vs & Us & PW & Sw & HB).
+    apply (coh_renamed w w' s src dst s0 dn sn); auto.
+    - intros b lf Hl Ht. apply (pi_leafx _ _ _ _ _ _ _ Hinv _ _ _ Hl Ht). unfold pview. rewrite Hd. reflexivity.
+    - intros t pos ser s1 Hsl. apply Sw. exact Hsl.
+    - intros b _. apply HB.
+  Qed.
+
+  (* ---- move ASSIGNMENT over a destination that no binding reads ---- *)
+  Lemma moveassign_shape fuel w dst src w' :
+    pinv w -> NOACT w -> NOEMIT w -> (forall b lf, has_leaf w b lf -> lf_tg lf <> Some dst) ->
+    step1 fn rtl fuel w (PMoveAssign dst src) = (w', None) ->
+    exists s0 d0 dn sn,
+      lookup (w_props w) src = Some s0 /\ lookup (w_props w) dst = Some d0 /\ src <> dst /\
+      pr_value dn = pr_value s0 /\ pr_updater dn = pr_updater s0 /\ pr_value sn = pr_value s0 /\ pr_updater sn = None /\
+      (forall q, lookup (w_props w') q = if Nat.eqb q dst then Some dn else if Nat.eqb q src then Some sn else lookup (w_props w) q) /\
+      (forall t pos ser s1, slot_at w' t pos ser s1 -> slot_at w t pos ser s1) /\
+      (forall b, pr_updater d0 <> Some b ->
+                 match get_bind w b, get_bind w' b with
+                 | Some x, Some x' => b_evp x' = b_evp x /\ abs_tree (b_root x') = option_map (aren (rn src dst)) (abs_tree (b_root x))
+                 | None, None => True
+                 | _, _ => False end).
+  Proof.
+    intros Hinv Hna HNE Hnr H. cbn [step1] in H.
+    destruct (lookup (w_props w) src) as [s0|] eqn:Hs; [|discriminate H].
+    destruct (lookup (w_props w) dst) as [d0|] eqn:Hd; [|discriminate H].
+    destruct (Nat.eqb_spec src dst) as [|Hne]; [discriminate H|].
+    assert (Pd : pview w dst = Some (psigs_of d0)) by (unfold pview; rewrite Hd; reflexivity).
+    assert (Ps : pview w src = Some (psigs_of s0)) by (unfold pview; rewrite Hs; reflexivity).
+    assert (M0 : MA w dst w).
+    { split; [eapply pinvg_mono; [| | | | | |exact Hinv]; cbv beta; try (intros x Hx; exact Hx); try (intros x Hx; exact (False_ind _ Hx))|].
+      split; [exact (pi_slotown _ _ _ _ _ _ _ Hinv)|]. split; [exact HNE|]. split; [reflexivity|]. split; [reflexivity|]. split; [auto|].
+      intros t Ho. exact (pi_own _ _ _ _ _ _ _ Hinv _ _ _ Ho (fun z => z)). }
+    destruct (kill_table w (pr_about d0)) as [w1 [ex|]] eqn:K1; [discriminate H|].
+    destruct (ma_kill fn w dst d0 KAbout _ _ _ Hinv Hd ltac:(discriminate) M0 K1 I) as [_ M1].
+    destruct (kill_table w1 (pr_changed d0)) as [w2 [ex|]] eqn:K2; [discriminate H|].
+    destruct (ma_kill fn w dst d0 KChanged _ _ _ Hinv Hd ltac:(discriminate) M1 K2 I) as [_ M2].
+    destruct (kill_table w2 (pr_destroyed d0)) as [w3 [ex|]] eqn:K3; [discriminate H|].
+    destruct (ma_kill fn w dst d0 KDestroyed _ _ _ Hinv Hd ltac:(discriminate) M2 K3 I) as [_ (I3 & SO3 & NE3 & P3 & B3 & S3 & A3)].
+    (* the destination's updater dies; every other binding is untouched *)
+    destruct (match pr_updater d0 with Some b => destroy_binding w3 b | None => ok w3 end) as [w4 [ex|]] eqn:Hu; [discriminate H|].
+    assert (Hupd : pinvg none_of (eq dst) none_of (eq dst) (eq dst) (eq dst) w4 /\ SLOTOWN none_of w4 /\ NOEMIT w4 /\ NOTARGET dst w4 /\
+              w_props w4 = w_props w /\ (forall t pos ser x, slot_at w4 t pos ser x -> slot_at w t pos ser x) /\
+              (forall t, owns w dst KMoved t -> exists sl fr, tview w4 t = Some (sl, fr, true)) /\
+              (forall b, pr_updater d0 <> Some b -> get_bind w4 b = get_bind w b)).
+    { assert (Pd3 : pview w3 dst = Some (psigs_of d0)) by (unfold pview; rewrite P3, Hd; reflexivity).
+      assert (G3 : forall b, get_bind w3 b = get_bind w b) by (intros b; unfold get_bind; rewrite B3; reflexivity).
+      destruct (pr_updater d0) as [bd|] eqn:Hub.
+      - pose proof (destroy_binding_tmono w3 bd) as TM. rewrite Hu in TM. cbn [fst] in TM.
+        destruct (destroy_binding_pinvg _ _ _ _ _ _ _ _ _ I3 (fun z => z) Hu) as (J1 & J2 & J3 & J4 & J5 & J6 & J7 & J8 & J9 & J10 & J11).
+        destruct (pi_upd _ _ _ _ _ _ _ Hinv _ _ _ Pd Hub (fun z => z)) as (lsb & Eb).
+        assert (Eb3 : bview w3 bd = Some (lsb, Some dst)) by (rewrite (bview_binds _ _ B3); exact Eb).
+        split; [|split; [|split; [|split; [|split; [|split; [|split]]]]]].
+        + eapply pinvg_mono; [| | | | | |exact J1]; cbv beta; try (intros x Hx; exact Hx).
+          intros x [Hx|(ls0 & E0)]; [exact Hx|]. rewrite Eb3 in E0. inversion E0; reflexivity.
+        + intros t pos ser b l lf q k Hsl Hl Hid Ho Hq. apply J10 in Hsl.
+          assert (Hl3 : has_leaf w3 b lf).
+          { destruct Hl as (ls & tg & E & Hi). destruct (Nat.eq_dec b bd) as [->|Hnb]; [congruence|]. rewrite (J3 _ Hnb) in E. exists ls, tg. auto. }
+          assert (Ho3 : owns w3 q k t) by (revert Ho; unfold owns, pview; rewrite J5; tauto).
+          eapply SO3; eauto.
+        + eapply NOEMIT_tmono; eauto.
+        + intros b ls E. destruct (Nat.eq_dec b bd) as [->|Hnb]; [congruence|]. rewrite (J3 _ Hnb) in E.
+          destruct (pi_tgt _ _ _ _ _ _ _ I3 _ _ _ E) as (v & Ev & Eu). rewrite Pd3 in Ev. assert (v = psigs_of d0) by congruence. subst v. cbn in Eu. congruence.
+        + rewrite J5. exact P3.
+        + intros t pos ser x Hsl. apply S3. apply J10. exact Hsl.
+        + intros t Ho. destruct (A3 _ Ho) as (sl & fr & Et). eapply J11; eauto.
+        + intros b Hb. rewrite (destroy_binding_get_bind _ _ _ _ Hu b) by congruence. apply G3.
+      - inversion Hu; subst w4. split; [exact I3|]. split; [exact SO3|]. split; [exact NE3|]. split; [|split; [exact P3|split; [exact S3|split; [exact A3|intros b _; apply G3]]]].
+        intros b ls E. destruct (pi_tgt _ _ _ _ _ _ _ I3 _ _ _ E) as (v & Ev & Eu). rewrite Pd3 in Ev. assert (v = psigs_of d0) by congruence. subst v. cbn in Eu. congruence. }
+    destruct Hupd as (I4 & SO4 & NE4 & NT4 & P4 & S4 & A4 & G4).
+    set (d' := {| pr_value := pr_value s0; pr_about := pr_about s0; pr_changed := pr_changed s0; pr_destroyed := pr_destroyed s0; pr_moved := pr_moved d0; pr_updater := pr_updater s0 |}) in *.
+    set (w5 := set_props w4 (bind_key (bind_key (w_props w4) src (moved_from s0)) dst d')) in *.
+    assert (O4 : forall q k t, owns w4 q k t <-> owns w q k t) by (intros; unfold owns, pview; rewrite P4; tauto).
+    assert (Hd5 : lookup (w_props w5) dst = Some d') by (unfold w5; cbn [set_props w_props]; apply lookup_bind_same).
+    assert (Hs5 : lookup (w_props w5) src = Some (moved_from s0)) by (unfold w5; cbn [set_props w_props]; rewrite lookup_bind_other by exact Hne; apply lookup_bind_same).
+    assert (M : MV src dst (pr_moved d0) (pr_moved s0) (fixtarget w5 d' dst)).
+    { apply (mv_establish w4 src dst s0 d' (pr_moved d0)); auto.
+      - rewrite P4. exact Hs.
+      - intros t. rewrite O4. split; [intros (v & Ev & Es); rewrite Pd in Ev; assert (v = psigs_of d0) by congruence; subst v; exact Es|].
+        intros E. exists (psigs_of d0). auto.
+      - intros t E. apply A4. exists (psigs_of d0). auto.
+      - intros t pos pos' ser ser' b l Ht S1 S2'. apply S4 in S1, S2'. destruct Ht as [E|E].
+        + apply (pinv_uniq w dst KMoved t pos pos' ser ser' b l Hinv); auto. exists (psigs_of d0). auto.
+        + apply (pinv_uniq w src KMoved t pos pos' ser ser' b l Hinv); auto. exists (psigs_of s0). auto. }
+    unfold finish_move in H. rewrite Hd5, Hs5 in H.
+    change (match pr_updater d' with
+            | Some b => match get_bind w5 b with Some x => put_bind w5 b (bind_with_target x (Some dst)) | None => w5 end
+            | None => w5 end) with (fixtarget w5 d' dst) in H.
+    set (wa := fixtarget w5 d' dst) in *.
+    destruct (mv_walks fn rtl fuel src dst (pr_moved d0) (pr_moved s0) wa M) as (wb & wc & E1 & P1 & E2 & T & P & O & Hh & Sr & L & N & B).
+    rewrite E1 in H. cbn [moved_from pr_moved] in H. rewrite E2 in H.
+    destruct (kill_table wc (pr_moved d0)) as [wd [ex|]] eqn:K; [discriminate H|].
+    destruct (kill_table_keeps fn _ _ _ K) as (Pk & Bk & Sk).
+    assert (Pc : w_props wc = w_props w5) by (rewrite P; unfold wa; apply fixtarget_props).
+    rewrite Pk, Pc, Hd5, Hs5 in H. inversion H; subst w'; clear H.
+    match goal with |- exists _ _ _ _, _ /\ _ /\ _ /\ _ /\ _ /\ _ /\ _ /\ (forall q, lookup (w_props ?W) q = _) /\ _ => set (w' := W) in * end.
+    assert (Twa : forall t, tview wa t = tview w4 t) by (intros t; unfold wa, fixtarget; destruct (pr_updater d') as [bu|]; [destruct (get_bind w5 bu)|]; reflexivity).
+    assert (NAa : forall ot t pos ser label act, ot = Some t -> slot_at wa t pos ser (SObs label act) -> act = None).
+    { intros ot t pos ser label act _ (sl & fr & al & Et & En). apply (Hna t pos ser label act). apply S4. exists sl, fr, al. split; [rewrite <- Twa; exact Et|exact En]. }
+    destruct (emit_moved_skel fn rtl (set_helper fn rtl fuel) wa (pr_moved d0) dst dst wb (NAa _) E1) as (SKb & Pb & Twb).
+    assert (NAb : forall t pos ser label act, pr_moved s0 = Some t -> slot_at wb t pos ser (SObs label act) -> act = None).
+    { intros t pos ser label act Ht (sl & fr & al & Et & En). apply (NAa (Some t) t pos ser label act eq_refl). exists sl, fr, al. split; [rewrite <- Twb; exact Et|exact En]. }
+    destruct (emit_moved_skel fn rtl (set_helper fn rtl fuel) wb (pr_moved s0) dst dst wc NAb E2) as (SKc & _ & _).
+    pose proof (SKB_trans _ _ _ SKb SKc) as SKac.
+    set (dn := prop_set_sig d' KMoved (pr_moved (moved_from s0))) in *. set (sn := prop_set_sig (moved_from s0) KMoved None) in *.
+    exists s0, d0, dn, sn. split; [reflexivity|]. split; [reflexivity|]. split; [exact Hne|]. split; [reflexivity|]. split; [reflexivity|]. split; [reflexivity|]. split; [reflexivity|].
+    split; [|split].
+    - intros q. unfold w', w5; cbn [set_props w_props]. rewrite !lookup_bind, P4. destruct (Nat.eqb q dst); [reflexivity|]. destruct (Nat.eqb q src); reflexivity.
+    - intros t pos ser s1 Hsl. apply S4. change (slot_at wd t pos ser s1) in Hsl. apply Sk in Hsl. destruct Hsl as (sl & fr & al & Et & En).
+      exists sl, fr, al. split; [rewrite <- Twa, <- T; exact Et|exact En].
+    - intros b Hb. assert (Gw' : get_bind w' b = get_bind wc b) by (unfold get_bind, w'; cbn [set_props w_binds]; rewrite Bk; reflexivity). rewrite Gw'.
+      pose proof (SKac b) as Sb. pose proof (B b) as Bb. unfold bmap, bview in Bb. unfold wa in Sb, Bb.
+      assert (G5 : get_bind w5 b = get_bind w b) by (rewrite <- (G4 b Hb); reflexivity).
+      rewrite (fixtarget_get w5 d' dst b), G5 in Sb, Bb.
+      destruct (get_bind w b) as [x|] eqn:Hx; [|destruct (get_bind wc b); [destruct Sb|exact I]].
+      destruct (get_bind wc b) as [x'|]; [|destruct Sb]. destruct Sb as [Sk' Ev].
+      assert (Er : b_root (if opt_eqb Nat.eqb (pr_updater d') (Some b) then bind_with_target x (Some dst) else x) = b_root x) by (destruct (opt_eqb Nat.eqb (pr_updater d') (Some b)); reflexivity).
+      assert (Ee : b_evp (if opt_eqb Nat.eqb (pr_updater d') (Some b) then bind_with_target x (Some dst) else x) = b_evp x) by (destruct (opt_eqb Nat.eqb (pr_updater d') (Some b)); reflexivity).
+      rewrite Er in Sk', Bb. rewrite Ee in Ev. split; [exact Ev|]. inversion Bb as [[El Etg]].
+      apply (abs_of_skel (rn src dst) (mvl src dst)); [exact Sk'|exact El|].
+      intros lf Hi. rewrite (mvl_tg src dst lf Hne). destruct (lf_tg lf) as [q|] eqn:Etq; [|reflexivity].
+      assert (Hl : has_leaf w b lf) by (exists (leaves (b_root x)), (b_target x); split; [unfold bview; rewrite Hx; reflexivity|exact Hi]).
+      pose proof (Hnr _ _ Hl) as Hnd. rewrite Etq in Hnd. destruct (Nat.eqb_spec q dst) as [->|_]; [exfalso; apply Hnd; reflexivity|].
+      cbn [option_map]. unfold rn. destruct (Nat.eqb q src); reflexivity.
+  Qed.
+
+  Lemma grow_moveassign fuel w dst src w' :
+    SC w -> COH w -> NOEMIT w -> (forall b lf, has_leaf w b lf -> lf_tg lf <> Some dst) ->
+    step1 fn rtl fuel w (PMoveAssign dst src) = (w', None) -> SC w' /\ COH w'.
+  Proof.
+    intros (Hinv & Hna & Hsi) (s & HRel & HInv) HNE Hnr H.
+    pose proof (moveassign_pinv fn rtl fuel w dst src w' None Hinv HNE H I) as Hinv'.
+    destruct (moveassign_shape fuel w dst src w' Hinv Hna HNE Hnr H) as (s0 & d0 & dn & sn & Hs & Hd & Hne & Vd & Ud & Vs & Us & PW & Sw & HB).
+    apply (coh_renamed w w' s src dst s0 dn sn); auto.
+    intros b Hb. apply HB. apply Hb. exact Hd.
+  Qed.
+
+  (* ---- histories: the operations of PropGrowMore.grow_op2, move construction of any property, and move assignment over a
+     destination that no live binding reads ---- *)
   Definition grow_op3 (w : world) (o : op) : Prop :=
-    match o with PMoveCtor _ _ => True | _ => PropGrowMore.grow_op2 w o end.
+    match o with
+    | PMoveCtor _ _ => True
+    | PMoveAssign dst _ => PropGrowMore.no_reader_b w dst = true
+    | _ => PropGrowMore.grow_op2 w o end.
 
   Theorem grow3_step fuel w o w' :
     SC w -> COH w -> NOEMIT w -> grow_op3 w o -> step1 fn rtl fuel w o = (w', None) -> SC w' /\ COH w' /\ NOEMIT w'.
@@ -372,7 +543,8 @@ Section MoveCtor.
     { pose proof (step1_tmono fn rtl fuel w o) as M. rewrite H in M. cbn [fst] in M. eapply NOEMIT_tmono; eauto. }
     destruct o; cbn [grow_op3] in Ho;
       try (destruct (PropGrowMore.grow2_step fn rtl fuel w _ w' HSC HC Ho H) as [A1 A2]; split; [exact A1|split; [exact A2|exact HNE']]).
-    destruct (grow_movector fuel w src dst w' HSC HC HNE H) as [A1 A2]. split; [exact A1|split; [exact A2|exact HNE']].
+    - destruct (grow_movector fuel w src dst w' HSC HC HNE H) as [A1 A2]. split; [exact A1|split; [exact A2|exact HNE']].
+    - destruct (grow_moveassign fuel w dst src w' HSC HC HNE (PropGrowMore.no_reader_sound w dst Ho) H) as [A1 A2]. split; [exact A1|split; [exact A2|exact HNE']].
   Qed.
 
   Fixpoint grow3_run_ok (fuel : nat) (w : world) (ops : list op) : Prop :=
